@@ -120,7 +120,7 @@ def build(seed, tier):
                 ops[-1] = {'op': 'evaluate', 'expr': 'hlate(2)'}
     if mirrored:
         target = rf.randrange(len(ops))
-        if ops[target].get('fn') in ('make_grumpy', 'use_grumpy'):
+        if ops[target].get('fn') in ('make_grumpy', 'use_grumpy', 'make_card', 'use_card'):
             # pedal itself calls the student's __repr__ there (student LINE events the direct call does not have):
             # a fault defined by an event count would land on different lines in the two executions
             target = 0
